@@ -216,10 +216,16 @@ def Excluded_fancyEmpty (idxs : List (List Int)) : Bool :=
 def Excluded_fancyBcast1 (idxs : List (List Int)) (v : Val α) : Bool :=
   v.shape == [1] && (idxs.headD []).length != 1
 
+/-- finding F-dok-empty-tuple-key: `d[()] = v` is taken for an assignment through index lists and
+raises (IndexError on 0-d and 1-d arrays, NotImplementedError above); NumPy assigns to every element -/
+def Excluded_emptyTupleKey (bare : Bool) (key : List KeyPart) : Bool :=
+  key.isEmpty && !bare
+
 /-- the union of the known regions, per op (boolean masks are not supported at all:
 finding F-dok-boolmask) -/
 def Excluded (shape : List Nat) : Op α → Bool
   | .set bare key _ => Excluded_negStepStart0 shape key || Excluded_tupleRawIndex shape bare key
+      || Excluded_emptyTupleKey bare key
   | .fancy idxs v => Excluded_fancyRawIndex shape idxs || Excluded_fancyEmpty idxs || Excluded_fancyBcast1 idxs v
   | .mask _ _ => true
 
